@@ -2,11 +2,15 @@ package props
 
 import (
 	"bytes"
+	"encoding/base32"
+	"encoding/base64"
 	"encoding/binary"
 	"encoding/hex"
+	"encoding/pem"
 	"fmt"
 	"reflect"
 	"strconv"
+	"strings"
 	"testing"
 
 	"github.com/google/go-tdx-guest/abi"
@@ -321,6 +325,46 @@ func TestC09(t *testing.T) {
 	// (a2) exhaustive: every truncation length of two valid quotes, every boundary value of each field.
 	gen.Direct(t, "truncations", c09Truncations)
 	gen.Direct(t, "size-field-boundaries", c09SizeBoundaries)
+
+	// a quote written down as text - base64 in its four flavours, hexadecimal, PEM armour, with line breaks or blanks
+	// around it - is a byte string that does not follow the v4 layout; and every 16-bit content field of a quote takes
+	// every value, 0xffff included
+	gen.Direct(t, "text-encodings-and-16-bit-field-values", func(t *testing.T) {
+		s := gen.NewStream(gen.Seed(), "c09text")
+		for i, sizes := range [][3]int{{32, 0, 0}, {0, 10, 0}, {64, 1200, 7}, {32, 3600, 0}} {
+			if !gen.ShardOwns(i) {
+				continue
+			}
+			raw := gen.RandomRefQuote(s, sizes[0], sizes[1], sizes[2]).Encode()
+			texts := map[string][]byte{
+				"base64-std":         []byte(base64.StdEncoding.EncodeToString(raw)),
+				"base64-std-nopad":   []byte(base64.RawStdEncoding.EncodeToString(raw)),
+				"base64-url":         []byte(base64.URLEncoding.EncodeToString(raw)),
+				"base64-url-nopad":   []byte(base64.RawURLEncoding.EncodeToString(raw)),
+				"base64-with-breaks": []byte("\n" + base64.StdEncoding.EncodeToString(raw[:300]) + "\r\n" + base64.StdEncoding.EncodeToString(raw[300:]) + "\n"),
+				"hex-lower":          []byte(hex.EncodeToString(raw)),
+				"hex-upper":          []byte(strings.ToUpper(hex.EncodeToString(raw))),
+				"hex-0x":             []byte("0x" + hex.EncodeToString(raw)),
+				"pem":                pem.EncodeToMemory(&pem.Block{Type: "TDX QUOTE", Bytes: raw}),
+				"json-string":        []byte(`"` + base64.StdEncoding.EncodeToString(raw) + `"`),
+				"base32":             []byte(base32.StdEncoding.EncodeToString(raw)),
+			}
+			for name, txt := range texts {
+				c09Check(t, txt, "text:"+name)
+				gen.NonTrivial("c09text", name, i)
+			}
+			// 16-bit content fields: header words 8 and 10 (QE SVN, PCE SVN) and the QE report's ISV_PROD_ID / ISV_SVN
+			qer := 48 + 584 + 4 + 64 + 64 + 6
+			for _, off := range []int{8, 10, qer + 256, qer + 258} {
+				for _, v := range []uint64{0, 1, 0x7f, 0x80, 0xff, 0x100, 0x7fff, 0x8000, 0xfffe, 0xffff} {
+					b := append([]byte{}, raw...)
+					putLE(b, off, 2, v)
+					c09Check(t, b, fmt.Sprintf("16-bit field at %d = %#x", off, v))
+				}
+			}
+		}
+		gen.Class("text-encodings-and-16-bit-field-values")
+	})
 
 	// (b) messages: structurally valid messages with arbitrary contents.
 	gen.Prop(t, "messages", gen.N(15000, 1000000), func(t *rapid.T) {
